@@ -266,4 +266,22 @@ fn main() {
         println!("validates: {}", wasmparser::validate(&b).is_ok());
         show("S21", &b);
     });
+    run("S22 component round trip at nesting depth 3 (C27)", || {
+        for src in [
+            r#"(component (core module $a (func)) (component $c1 (core module $b (func nop)) (component $c2 (core module $d (func nop nop))) (core module $e (func nop nop nop))) (core module $f (func)))"#,
+            r#"(component (component $c1 (component $c2 (component $c3 (core module (func)))) (core module (func nop))) (core module (func nop nop)))"#,
+        ] {
+            let w = wat::parse_str(src).unwrap();
+            println!("input validates: {}", wasmparser::Validator::new_with_features(wasmparser::WasmFeatures::all()).validate_all(&w).is_ok());
+            let r = catch_unwind(AssertUnwindSafe(|| { let mut c = wirm::Component::parse(&w, false).unwrap(); c.encode() }));
+            match r {
+                Ok(out) => {
+                    let a = wasmprinter::print_bytes(&w).unwrap(); let b = wasmprinter::print_bytes(&out).unwrap_or_else(|e| format!("<unprintable: {}>", e));
+                    println!("same text: {}  output validates: {}", a == b, wasmparser::Validator::new_with_features(wasmparser::WasmFeatures::all()).validate_all(&out).is_ok());
+                    if a != b { println!("--- in\n{}\n--- out\n{}", a, b); }
+                }
+                Err(_) => println!("PANIC"),
+            }
+        }
+    });
 }
